@@ -1028,3 +1028,103 @@ def r_countsline(ctx) -> RuleResult:
     if not res.instances:
         raise AnalysisError("R-COUNTSLINE: none of the functions that mention COUNTS accepts the plain sample counts line at index 5 of the token lines")
     return res
+
+
+# --------------------------------------------------------------------------- R-NONECHECK
+
+
+@rule("R-NONECHECK")
+def r_nonecheck(ctx) -> RuleResult:
+    res = RuleResult("R-NONECHECK", "the result of a pattern search (None when nothing matches) is looked into only after a test of it: a line without the searched text does not end in AttributeError / TypeError")
+    from ..cfg import cfg_of
+    from .common import closure
+    fis = {f.fq: f for f in closure(ctx, "read_text", "parse", "write")}
+    for f in ctx.cg.funcs.values():
+        if f.module.name == "tucan.parser.parser" and f.cls is not None:
+            fis[f.fq] = f
+    n = 0
+    for f in fis.values():
+        fn = f.node
+        maybe_none: dict[str, ast.AST] = {}
+        for x in own_walk(fn):
+            tg = v = None
+            if isinstance(x, ast.Assign) and len(x.targets) == 1 and isinstance(x.targets[0], ast.Name):
+                tg, v = x.targets[0].id, x.value
+            elif isinstance(x, ast.NamedExpr) and isinstance(x.target, ast.Name):
+                tg, v = x.target.id, x.value
+            if tg is None or not (isinstance(v, ast.Call) and isinstance(v.func, ast.Attribute) and v.func.attr in ("search", "match", "fullmatch")):
+                continue
+            recv = v.func.value
+            is_re = norm(recv) == "re" or regex_of(ctx, f, recv) is not None or (isinstance(recv, ast.Name) and "pattern" in recv.id.lower()) \
+                or (isinstance(recv, ast.Call) and norm(recv.func) in ("re.compile", "compile"))
+            if is_re:
+                maybe_none[tg] = x
+        if not maybe_none:
+            continue
+        cfg = cfg_of(fn)
+        par = {}
+        for x in ast.walk(fn):
+            for c in ast.iter_child_nodes(x):
+                par[id(c)] = x
+        for name, d in maybe_none.items():
+            if len([1 for y in own_walk(fn) if isinstance(y, (ast.Assign, ast.NamedExpr)) and any(isinstance(t_, ast.Name) and t_.id == name for t_ in ([y.target] if isinstance(y, ast.NamedExpr) else y.targets))]) != 1:
+                continue        # bound more than once: not followed
+            dn = cfg.stmt_node_containing(d)
+            if isinstance(d, ast.NamedExpr):
+                # bound inside a test (`if not (m := P.match(x)): ...`, `(m := ...) and m.group()`): tested where it is made
+                up, born_in_test = d, False
+                while id(up) in par:
+                    q = par[id(up)]
+                    if (isinstance(q, (ast.If, ast.While, ast.IfExp, ast.Assert)) and q.test is up) or isinstance(q, ast.BoolOp) or (isinstance(q, ast.comprehension) and up in q.ifs):
+                        born_in_test = True
+                        break
+                    if isinstance(q, ast.stmt):
+                        break
+                    up = q
+                if born_in_test:
+                    n += 1
+                    res.inst(f.fq, f"`{short(d, 60)}` is tested where it is made", "ok")
+                    continue
+            # tests of the name: `if m`, `if m is None`, `if not m`, `while m`, `assert m`, `m and ...`, `... if m else ...`
+            tests, inline_ok = [], set()
+            for y in own_walk(fn):
+                if isinstance(y, (ast.If, ast.While, ast.Assert)) and any(isinstance(z, ast.Name) and z.id == name for z in ast.walk(y.test)):
+                    tn = cfg.node_of(y) if cfg.node_of(y) is not None else cfg.stmt_node_containing(y)
+                    if tn is not None:
+                        tests.append(tn)
+                if isinstance(y, (ast.IfExp,)) and any(isinstance(z, ast.Name) and z.id == name for z in ast.walk(y.test)):
+                    inline_ok |= {id(z) for z in ast.walk(y)}
+                if isinstance(y, ast.BoolOp):
+                    for i_, v_ in enumerate(y.values):
+                        if any(isinstance(z, ast.Name) and z.id == name for z in ast.walk(v_)) and not any(isinstance(z, (ast.Attribute, ast.Subscript)) and isinstance(z.value, ast.Name) and z.value.id == name for z in ast.walk(v_)):
+                            for later in y.values[i_ + 1:]:
+                                inline_ok |= {id(z) for z in ast.walk(later)}
+                if isinstance(y, ast.comprehension) and any(isinstance(z, ast.Name) and z.id == name for c_ in y.ifs for z in ast.walk(c_)):
+                    inline_ok |= {id(z) for z in ast.walk(par.get(id(y)))} if par.get(id(y)) is not None else set()
+                if isinstance(y, ast.Try):
+                    # looked into inside a try whose handler takes AttributeError / TypeError / everything
+                    if any(h.type is None or any(nm in norm(h.type) for nm in ("AttributeError", "TypeError", "Exception")) for h in y.handlers):
+                        inline_ok |= {id(z) for b_ in y.body for z in ast.walk(b_)}
+            for y in own_walk(fn):
+                looked = (isinstance(y, ast.Attribute) and isinstance(y.value, ast.Name) and y.value.id == name) or \
+                         (isinstance(y, ast.Subscript) and isinstance(y.value, ast.Name) and y.value.id == name and isinstance(y.ctx, ast.Load))
+                if not looked or id(y) in inline_ok:
+                    continue
+                un = cfg.stmt_node_containing(y)
+                if un is None or dn is None:
+                    continue
+                n += 1
+                # a test statement that itself looks into the value (`if m.group(1) == ...`) does not guard its own test
+                avoid = [t for t in tests if t != un]
+                free = un == dn or cfg.path_avoiding(dn, un, avoid) is not None
+                res.inst(f.fq, f"`{short(y, 40)}` after `{short(d, 50)}`", "fail" if free else "ok")
+                if free:
+                    res.fail(Finding("R-NONECHECK", f.module.rel, f.qualname, f"{norm(y)} without a test of {name}",
+                                     f"`{short(d, 60)}` gives None when the text is not there, and `{short(y, 40)}` is reached without any test of `{name}`: "
+                                     "such a line ends in AttributeError / TypeError instead of being read or refused with the reader's own exception", line=y.lineno))
+    if n == 0:
+        # searching with patterns is incidental to the readers (today: one site, the ENDPTS list of a star-atom bond); code without
+        # any has nothing to decide here
+        res.notes.append("no pattern-search result is looked into in the readers, the parser or the writer")
+    res.counts = {"uses_of_search_results": n}
+    return res
